@@ -6,8 +6,10 @@ CONSTANTS
   PruneBeforeWrite = FALSE
   LooseBeforePacked = FALSE
   StaleSnapshot = TRUE
+  StaleShortcut = FALSE
 INVARIANT VisIsAbs
 INVARIANT CasSound
+INVARIANT ShortcutSound
 INVARIANT AddSound
 INVARIANT DelSound
 INVARIANT ReadSound
